@@ -319,12 +319,59 @@ func min(a, b int) int {
 // ---- case descriptions (replayable) -----------------------------------------------------------------
 
 type caseDesc struct {
-	Kind     string `json:"kind"`     // table | pipe | transcript
-	Enc      string `json:"encoding"` // "" = no encoding setting
-	InputHex string `json:"input_hex,omitempty"`
-	Mode     string `json:"reader,omitempty"`
-	Format   string `json:"format,omitempty"`
-	Consumer int    `json:"consumer_read_size,omitempty"` // pipe: 0 = ioutil.ReadAll, n = the ingester reads n bytes at a time
+	Kind     string    `json:"kind"`     // table | pipe | transcript
+	Enc      string    `json:"encoding"` // "" = no encoding setting
+	InputHex string    `json:"input_hex,omitempty"`
+	Mode     string    `json:"reader,omitempty"`
+	Format   string    `json:"format,omitempty"`
+	Consumer int       `json:"consumer_read_size,omitempty"` // pipe: 0 = ioutil.ReadAll, n = the ingester reads n bytes at a time
+	Long     *longSpec `json:"long_input,omitempty"`         // instead of input_hex
+}
+
+// longSpec is the compact, replayable description of a long input: a base (the ASCII filler
+// pattern, or the well-formed rows of a format) with bytes patched in, optionally after a prefix.
+type longSpec struct {
+	Base    string  `json:"base"` // "filler" | "rows:<fixture index>"
+	Len     int     `json:"len"`  // filler: length; rows: minimal length
+	Prefix  string  `json:"prefix_hex,omitempty"`
+	Patches []patch `json:"patches"`
+}
+type patch struct {
+	At  int    `json:"at"`
+	Hex string `json:"hex"`
+}
+
+func (l *longSpec) build() []byte {
+	var b []byte
+	if l.Base == "filler" {
+		b = make([]byte, l.Len)
+		for i := range b {
+			b[i] = fillerByte(i)
+		}
+	} else {
+		var fi int
+		fmt.Sscanf(l.Base, "rows:%d", &fi)
+		b = longRows(fi, l.Len)
+	}
+	for _, p := range l.Patches {
+		x, _ := hex.DecodeString(p.Hex)
+		if p.At >= 0 && p.At+len(x) <= len(b) {
+			copy(b[p.At:], x)
+		}
+	}
+	pre, _ := hex.DecodeString(l.Prefix)
+	return append(pre, b...)
+}
+
+// mkDesc: long inputs are described by their longSpec, short ones by their bytes.
+func (e *env) mkDesc(kind, enc string, in []byte, mode string) caseDesc {
+	d := caseDesc{Kind: kind, Enc: enc, Mode: mode}
+	if e.curLong != nil {
+		d.Long = e.curLong
+	} else {
+		d.InputHex = hex.EncodeToString(in)
+	}
+	return d
 }
 
 var encs = []string{"utf-8", "iso-8859-1", "windows-1252"}
@@ -340,6 +387,9 @@ type env struct {
 	o        *vh.Opts
 	sum      *vh.Summary
 	cw       *vh.CaseWriter
+	curLong  *longSpec      // set while a long input is being run
+	trN      int            // transcripts run so far
+	cwLong   *vh.CaseWriter // long streams: few cases per shard, so that they are evaluated in parallel
 	capture  map[string]*captureSchema
 	fixtures []vh.Fixture
 	schemas  map[string]omniparser.Schema // format + "/" + enc
@@ -415,7 +465,8 @@ func diffDetail(got, want []byte) map[string]interface{} {
 // runPipeX: consumer = how the ingester reads the stream (0: ReadAll, n: n bytes at a time);
 // toModel = also hand the case to the Coq model.
 func (e *env) runPipeX(enc string, in []byte, mode string, consumer int, toModel bool) {
-	d := caseDesc{Kind: "pipe", Enc: enc, InputHex: hex.EncodeToString(in), Mode: mode, Consumer: consumer}
+	d := e.mkDesc("pipe", enc, in, mode)
+	d.Consumer = consumer
 	cs := e.captureFor(enc)
 	if cs == nil {
 		return
@@ -442,18 +493,18 @@ func (e *env) runPipeX(enc string, in []byte, mode string, consumer int, toModel
 		}
 	}
 	nontrivial := hasHigh(in) && enc != "" && enc != "utf-8" || bytes.HasPrefix(in, bom[:1])
-	e.sum.Count(fmt.Sprintf("pipe|%s|%s|%s|%d", enc, d.InputHex, mode, consumer), nontrivial)
+	e.sum.Count(fmt.Sprintf("pipe|%s|%s|%s|%d", enc, vh.KeyOf(in), mode, consumer), nontrivial)
 	e.sum.Hist("pipe:enc=" + encLabel(enc))
 	e.sum.Hist("pipe:reader=" + modeLabel(mode))
 	if len(in) >= 4096 {
 		e.sum.Hist("pipe:long-input(>=4096)")
 	}
-	k := enc + "|" + d.InputHex
+	k := enc + "|" + vh.KeyOf(in)
 	if toModel && !e.seenPipe[k] {
 		e.seenPipe[k] = true
 		if len(in) >= 1024 {
 			// long streams as segments (a 10 KB hex literal costs coqc seconds to read)
-			e.cw.Add(fmt.Sprintf("SegPipeCase %s %s %s", coqEnc(enc), coqSegs(in), coqSegs(got)), d)
+			e.cwLong.Add(fmt.Sprintf("SegPipeCase %s %s %s", coqEnc(enc), coqSegs(in), coqSegs(got)), d)
 		} else {
 			e.cw.Add(fmt.Sprintf("PipeCase %s %s %s", coqEnc(enc), vh.CoqHex(in), vh.CoqHex(got)), d)
 		}
@@ -483,7 +534,7 @@ func coqSegs(b []byte) string {
 			}
 			if n >= 16 {
 				flush()
-				segs = append(segs, fmt.Sprintf("SFill %s %s", vh.CoqN(ph), vh.CoqNat(n)))
+				segs = append(segs, fmt.Sprintf("SFill %s %s", vh.CoqN(ph), vh.CoqN(n)))
 				i += n
 				continue
 			}
@@ -518,7 +569,8 @@ func modeLabel(m string) string {
 
 // runTranscript compares (bytes, enc) with (utf8_of(bytes), utf-8) on one built-in format.
 func (e *env) runTranscript(fi int, enc string, in []byte, mode string) {
-	d := caseDesc{Kind: "transcript", Enc: enc, InputHex: hex.EncodeToString(in), Mode: mode, Format: e.fixtures[fi].Format}
+	d := e.mkDesc("transcript", enc, in, mode)
+	d.Format = e.fixtures[fi].Format
 	s, ref := e.schemaFor(fi, enc), e.schemaFor(fi, "utf-8")
 	if s == nil || ref == nil {
 		return
@@ -560,7 +612,7 @@ func (e *env) runTranscript(fi int, enc string, in []byte, mode string) {
 		e.sum.Fail("Read transcript of (bytes, "+encLabel(enc)+") differs from the transcript of (utf8(bytes), utf-8)", d, detail)
 	}
 	nontrivial := nrec > 0 && (hasHigh(in) && enc != "" && enc != "utf-8" || bytes.HasPrefix(in, bom))
-	e.sum.Count("transcript|"+d.Format+"|"+enc+"|"+d.InputHex+"|"+mode, nontrivial)
+	e.sum.Count("transcript|"+d.Format+"|"+enc+"|"+vh.KeyOf(in)+"|"+mode, nontrivial)
 	if len(in) > 2000 {
 		e.sum.Hist("transcript:long-input")
 		e.runPipeX(enc, in, mode, 0, false)
@@ -569,7 +621,8 @@ func (e *env) runTranscript(fi int, enc string, in []byte, mode string) {
 	if nontrivial {
 		e.sum.Sample(map[string]interface{}{"case": d, "transcript": a})
 	}
-	e.runPipe(enc, in, mode)
+	e.trN++
+	e.runPipeX(enc, in, mode, 0, e.trN%3 == 0)
 }
 
 // longRows builds an all-ASCII input of at least minLen bytes for the format of fixture fi:
@@ -659,80 +712,71 @@ func boundaryOffsets() []int {
 // for the direct stream comparison (all encodings, all offsets) and for the formats.
 func (e *env) longCases(r *vh.Rng) {
 	offs := boundaryOffsets()
-	total := 8*4096 + 64
-	filler := func() []byte {
-		b := make([]byte, total)
-		for i := range b {
-			b[i] = fillerByte(i)
-		}
-		return b
-	}
 	// what is placed at the offset: single bytes of each UTF-8 length class and runs
 	inserts := [][]byte{{0xE9}, {0x80}, {0x81}, {0xFF}, {0xE9, 0xE8}, {0xE9, 0xE8, 0xE7}, {0x80, 0x80, 0x80, 0x80, 0x80}, {0xC3, 0xA9}, {0xE2, 0x82, 0xAC}, {0xF0, 0x9F, 0x98, 0x80}, {0xEF, 0xBB, 0xBF}}
 	n := 0
 	for _, enc := range encs {
 		for _, p := range offs {
 			for ii, ins := range inserts {
-				in := filler()
-				copy(in[p:], ins)
-				in = in[:p+len(ins)+5+ii] // the boundary under test is the last one the input reaches
+				// the boundary under test is the last one the input reaches
+				e.curLong = &longSpec{Base: "filler", Len: p + len(ins) + 5 + ii, Patches: []patch{{p, hex.EncodeToString(ins)}}}
+				in := e.curLong.build()
 				consumer := []int{61, 0, 4096, 1000}[(n+ii)%4]
 				mode := "whole"
 				if n%9 == 8 {
 					mode = "chunks:4096,4095,3"
 				}
 				// the model evaluates one case per offset (rotating over what is inserted and the encoding)
-				e.runPipeX(enc, in, mode, consumer, (n+ii)%3 == 0)
+				e.runPipeX(enc, in, mode, consumer, (n+ii)%6 == 0)
 			}
 			n++
 		}
 		// runs of non-ASCII bytes across each boundary, every alignment
 		for _, k := range []int{1, 2, 3} {
 			for start := k*4096 - 9; start <= k*4096-1; start++ {
-				in := filler()[:k*4096+40]
-				for i := start; i < start+18; i++ {
-					in[i] = byte(0x80 + (i*7)%0x80)
+				run := make([]byte, 18)
+				for i := range run {
+					run[i] = byte(0x80 + ((start+i)*7)%0x80)
 				}
-				e.runPipeX(enc, in, "whole", []int{61, 0}[start%2], false)
+				e.curLong = &longSpec{Base: "filler", Len: k*4096 + 40, Patches: []patch{{start, hex.EncodeToString(run)}}}
+				e.runPipeX(enc, e.curLong.build(), "whole", []int{61, 0}[start%2], false)
 			}
 		}
 		// the same shifted by a leading BOM (utf-8: stripped, so the consumer's buffer is 3 bytes behind)
 		for _, p := range []int{4093, 4094, 4095, 4096, 4097, 4098, 4099, 8191, 8192} {
-			in := append(append([]byte(nil), bom...), filler()[:p+8]...)
-			in[3+p] = 0xE9
-			in[3+p+1] = 0xA9
-			e.runPipeX(enc, in, "whole", 61, false)
+			e.curLong = &longSpec{Base: "filler", Len: p + 8, Prefix: "efbbbf", Patches: []patch{{p, "e9a9"}}}
+			e.runPipeX(enc, e.curLong.build(), "whole", 61, false)
 		}
 	}
 	// formats: the byte at each boundary offset of a long well-formed input is replaced
 	for fi := range e.fixtures {
-		base := longRows(fi, 3*4096+200)
+		baseLen := len(longRows(fi, 3*4096+200))
 		for _, enc := range encs {
 			for pi, p := range offs {
-				if p+2 >= len(base) {
+				if p+2 >= baseLen {
 					continue
 				}
 				full := fi == 0 || fi == 1 || fi == 3 || fi == 4 // csv, csv2, fixed-length, fixedlength2: every offset
 				if !full && pi%4 != fi%4 {
 					continue
 				}
-				in := append([]byte(nil), base...)
+				pt := patch{p, "e9"}
 				switch (pi + fi) % 3 {
-				case 0:
-					in[p] = 0xE9
 				case 1:
-					in[p], in[p+1] = 0xFC, 0x80
-				default:
-					in[p-1], in[p], in[p+1] = 0xE4, 0xF6, 0xFC
+					pt = patch{p, "fc80"}
+				case 2:
+					pt = patch{p - 1, "e4f6fc"}
 				}
 				mode := "whole"
 				if pi%7 == 6 {
 					mode = "onebyte"
 				}
-				e.runTranscript(fi, enc, in, mode)
+				e.curLong = &longSpec{Base: fmt.Sprintf("rows:%d", fi), Len: 3*4096 + 200, Patches: []patch{pt}}
+				e.runTranscript(fi, enc, e.curLong.build(), mode)
 			}
 		}
 	}
+	e.curLong = nil
 }
 
 // ---- tables -----------------------------------------------------------------------------------------
@@ -800,14 +844,17 @@ func main() {
 	sum := vh.NewSummary("C18", o,
 		"inputs (all 256 single bytes, random byte strings, fixture records carrying every byte value) x encodings (absent, utf-8, iso-8859-1, windows-1252) x with/without leading BOM x reader splits x the seven formats; non-trivial = a code-page case whose input has a byte >= 0x80 (transcripts: and at least one record is delivered) or an input starting with (part of) a BOM; distinct by (kind, format, encoding, input, reader)")
 	cw := vh.NewCaseWriter(o, "C18", "Model.Encoding", "c18case", "check_case")
-	e := &env{o: o, sum: sum, cw: cw, capture: map[string]*captureSchema{}, fixtures: vh.Fixtures(),
+	cwLong := vh.NewCaseWriter(o, "C18L", "Model.Encoding", "c18case", "check_case")
+	cwLong.PerFile = 12
+	e := &env{o: o, sum: sum, cw: cw, cwLong: cwLong, capture: map[string]*captureSchema{}, fixtures: vh.Fixtures(),
 		schemas: map[string]omniparser.Schema{}, seenPipe: map[string]bool{}}
 
 	if o.Replay != "" {
 		e.verbose = true
 		e.replay(o.Replay)
 		cw.Flush()
-		sum.CaseFiles = cw.Files
+		cwLong.Flush()
+		sum.CaseFiles = append(cw.Files, cwLong.Files...)
 		sum.Write(o)
 		return
 	}
@@ -925,7 +972,8 @@ func main() {
 	}
 
 	cw.Flush()
-	sum.CaseFiles = cw.Files
+	cwLong.Flush()
+	sum.CaseFiles = append(cw.Files, cwLong.Files...)
 	sum.Write(o)
 }
 
@@ -945,6 +993,10 @@ func (e *env) replay(path string) {
 	}
 	d := f.Case
 	in, _ := hex.DecodeString(d.InputHex)
+	if d.Long != nil {
+		in = d.Long.build()
+		e.curLong = d.Long
+	}
 	if d.Mode == "" {
 		d.Mode = "whole"
 	}
